@@ -348,7 +348,42 @@ func returnInstantStress(idx int64, r *rand.Rand) {
 			}
 		}(g)
 	}
-	wg.Wait()
+	done := make(chan struct{})
+	go func() { wg.Wait(); close(done) }()
+	last, stable := int64(-1), 0
+wait:
+	for {
+		select {
+		case <-done:
+			break wait
+		case <-time.After(2 * time.Second):
+			cur := returned.Load()
+			if cur != last {
+				last, stable = cur, 0
+				continue
+			}
+			if stable++; stable < 3 {
+				continue
+			}
+			// nothing has returned for six seconds of real time: whoever is still inside Acquire is blocked for good.  Every
+			// blocked caller is in the backlog - that is what the backlog is.
+			inside, n, busy := entered.Load()-returned.Load(), q.VerifBacklogLen(), st.GetBusyCount()
+			for confirm := 0; confirm < 3 && inside > int64(n); confirm++ { // the same picture three more times, a second apart
+				time.Sleep(time.Second)
+				if returned.Load() != cur || entered.Load()-returned.Load() != inside || q.VerifBacklogLen() != n {
+					last, stable = returned.Load(), 0
+					continue wait
+				}
+			}
+			if inside > int64(n) {
+				rt.Violation(fmt.Sprintf("C12/queue-%s/callers-blocked-in-acquire-that-the-backlog-does-not-hold/stress", ord), idx, rt.J{"ordering": ord, "goroutines": nG,
+					"callers_inside_acquire": inside, "backlog_len": n, "strategy_busy": busy, "returned_so_far": cur})
+			} else {
+				rt.Inconclusive("C12 return-instant stress stopped progressing (callers all in the backlog)")
+			}
+			return
+		}
+	}
 	rt.Count("return_instant_backlog_checks", checks.Load())
 	rt.Count("return_instant_stress_runs", 1)
 	if d := bad.Load(); d != nil {
